@@ -161,12 +161,24 @@ class ReqPathRun(object):
     def main(self):
         w, plan = self.w, self.plan
         ex = plan.get('exec', {})
+        extra = {}
+        if plan.get('never_convict'):
+            # a conviction policy that never marks a host down on a connection failure (a documented extension point): pools stay
+            # installed with no open connection while their replacement is pending
+            class NeverConvict(w.cpol.ConvictionPolicy):
+                def add_failure(self, connection_exc):
+                    return False
+
+                def reset(self):
+                    pass
+            extra['conviction_policy_factory'] = NeverConvict
+            w.sim.probe('never_convict_policy')
         try:
             cluster = w.make_cluster(contact=tuple(plan.get('contact', (0,))), protocol_version=plan.get('version', 4),
                                      profile=self.profile, executor_threads=ex.get('executor_threads', 2),
                                      idle_heartbeat_interval=0, reconnection_policy=w.cpol.ConstantReconnectionPolicy(
                                          ex.get('reconnect_delay', 1.0), max_attempts=None),
-                                     **plan.get('cluster_kw', {}))
+                                     **dict(plan.get('cluster_kw', {}), **extra))
             for k_, v_ in plan.get('cluster_attrs', {}).items():
                 setattr(cluster, k_, v_)
             pv2 = plan.get('pool_v2')
